@@ -373,8 +373,10 @@ config_default_rdomain(struct config *cf, const char *UNUSED(name))
 	int rdomain;
 
 	rdomain = cf->interpolate.rdomain++;
-	if (rdomain == RDOMAIN_MAX)
-		cf->interpolate.rdomain = rdomain = RDOMAIN_MIN;
+	if (rdomain == RDOMAIN_MAX) {
+		rdomain = RDOMAIN_MIN;
+		cf->interpolate.rdomain = RDOMAIN_MIN + 1;
+	}
 	variable_value_init(&va.va_val, INTEGER);
 	va.va_val.integer = rdomain;
 	return &va;
